@@ -87,7 +87,8 @@ theorem cas_once (fp : Foot) (cap : Nat) {frm to : PSt} (hne : frm ≠ to) (N : 
     (∀ i, ((runSched fp cap c0 σ).th i).wins ≤ 1) ∧
     (0 < N → (∀ i, i < N → ((runSched fp cap c0 σ).th i).done) →
       ∃ w, w < N ∧ Returned ((runSched fp cap c0 σ).th w) ∧ ((runSched fp cap c0 σ).th w).wins = 1 ∧
-        ∀ i, i < N → i ≠ w → ((runSched fp cap c0 σ).th i).dead = true ∧ ((runSched fp cap c0 σ).th i).wins = 0) := by
+        (∀ i, i < N → i ≠ w → ((runSched fp cap c0 σ).th i).dead = true ∧ ((runSched fp cap c0 σ).th i).wins = 0) ∧
+        (runSched fp cap c0 σ).g = applyQ (rest w) ⟨to, c0.g.proc⟩) := by
   have inv0 : RaceInv frm to N kall rest c0 := by
     constructor
     · intro i
@@ -103,7 +104,9 @@ theorem cas_once (fp : Foot) (cap : Nat) {frm to : PSt} (hne : frm ≠ to) (N : 
           exact ⟨not_won_of_wins0 f.2.1, not_lost_of_alive f.1⟩
       exact ⟨fun _ => nw, fun h => absurd h0.st h, fun i k a _ => absurd a (nw i).1⟩
   have inv := raceInv_run fp cap hne hexp hq σ c0 inv0
-  generalize runSched fp cap c0 σ = c at inv
+  have eff := effInv_run fp cap hne hexp hq c0.g.proc σ c0 inv0
+    ⟨fun _ => rfl, fun w a => absurd a (inv0.gl.1 h0.st w).1⟩
+  generalize runSched fp cap c0 σ = c at inv eff
   obtain ⟨ph, g1, g2, g3⟩ := inv
   -- wins > 0 only in phase Won
   have wonOf : ∀ i, 0 < (c.th i).wins → Won frm (c.th i) := by
@@ -152,17 +155,22 @@ theorem cas_once (fp : Foot) (cap : Nat) {frm to : PSt} (hne : frm ≠ to) (N : 
       rcases fin w hwN with ⟨_, p⟩ | l
       · exact p
       · have := l.1; have := hw.1; simp_all
-    refine ⟨w, hwN, ⟨hw.1, hwp, hw.2.2.1⟩, hw.2.1, ?_⟩
-    intro i hi hne'
-    rcases fin i hi with ⟨wi, _⟩ | l
-    · exact absurd (g3 i w wi hw) hne'
-    · exact l
+    refine ⟨w, hwN, ⟨hw.1, hwp, hw.2.2.1⟩, hw.2.1, ?_, ?_⟩
+    · intro i hi hne'
+      rcases fin i hi with ⟨wi, _⟩ | l
+      · exact absurd (g3 i w wi hw) hne'
+      · exact l
+    · have := eff.2 w hw
+      rw [hwp] at this
+      exact this
 
 /-- **init_once**: `N ≥ 1` threads race to call `ovni_proc_init` (any
     arguments) on an uninitialised process. Under every schedule at most one
     of them passes the compare-exchange; when all calls have completed,
-    exactly one has returned and every other one has reached die(). The step
-    list is the one generated from the C source. -/
+    exactly one has returned, every other one has reached die(), and the
+    process is READY with exactly the returned caller's arguments: the
+    initialisation took effect once. The step list is the one generated from
+    the C source. -/
 theorem init_once (cap N : Nat) (a : Nat → Proc) (c0 : Cfg D)
     (h0 : Race .uninit N (fun i => Call.procInit (a i)) c0) (σ : List Nat) :
     (∀ i j, 0 < ((runSched Foot.generated cap c0 σ).th i).wins →
@@ -171,15 +179,23 @@ theorem init_once (cap N : Nat) (a : Nat → Proc) (c0 : Cfg D)
     (0 < N → (∀ i, i < N → ((runSched Foot.generated cap c0 σ).th i).done) →
       ∃ w, w < N ∧ Returned ((runSched Foot.generated cap c0 σ).th w) ∧
         ((runSched Foot.generated cap c0 σ).th w).wins = 1 ∧
-        ∀ i, i < N → i ≠ w → ((runSched Foot.generated cap c0 σ).th i).dead = true ∧
-          ((runSched Foot.generated cap c0 σ).th i).wins = 0) := by
+        (∀ i, i < N → i ≠ w → ((runSched Foot.generated cap c0 σ).th i).dead = true ∧
+          ((runSched Foot.generated cap c0 σ).th i).wins = 0) ∧
+        (runSched Foot.generated cap c0 σ).g = ⟨.ready, a w⟩) := by
   have sh := fun i => shape_of_raw (D := D) .uninit .init (a i) _ init_shape_generated
-  exact cas_once Foot.generated cap (frm := .uninit) (to := .init) (by decide) N
-    (fun i => Call.procInit (a i)) (fun i => (sh i).choose)
-    (fun i t => (sh i).choose_spec.1) (fun i => (sh i).choose_spec.2) c0 h0 σ
+  have h := cas_once Foot.generated cap (frm := .uninit) (to := .init) (by decide) N
+    (fun i => Call.procInit (a i)) (fun i => ((Foot.generated.events "ovni_proc_init").map (toStep (a i))).tail)
+    (fun i t => (sh i).1) (fun i => (sh i).2) c0 h0 σ
+  refine ⟨h.1, h.2.1, fun hN hd => ?_⟩
+  obtain ⟨w, h1, h2, h3, h4, h5⟩ := h.2.2 hN hd
+  refine ⟨w, h1, h2, h3, h4, ?_⟩
+  rw [h5]
+  cases a w
+  rfl
 
 /-- **fini_once**: the same for `N ≥ 1` threads racing to call
-    `ovni_proc_fini` on a READY process. -/
+    `ovni_proc_fini` on a READY process; afterwards the process is GONE and
+    the other members of `rproc` are as they were. -/
 theorem fini_once (cap N : Nat) (c0 : Cfg D)
     (h0 : Race .ready N (fun _ => Call.procFini) c0) (σ : List Nat) :
     (∀ i j, 0 < ((runSched Foot.generated cap c0 σ).th i).wins →
@@ -188,12 +204,16 @@ theorem fini_once (cap N : Nat) (c0 : Cfg D)
     (0 < N → (∀ i, i < N → ((runSched Foot.generated cap c0 σ).th i).done) →
       ∃ w, w < N ∧ Returned ((runSched Foot.generated cap c0 σ).th w) ∧
         ((runSched Foot.generated cap c0 σ).th w).wins = 1 ∧
-        ∀ i, i < N → i ≠ w → ((runSched Foot.generated cap c0 σ).th i).dead = true ∧
-          ((runSched Foot.generated cap c0 σ).th i).wins = 0) := by
+        (∀ i, i < N → i ≠ w → ((runSched Foot.generated cap c0 σ).th i).dead = true ∧
+          ((runSched Foot.generated cap c0 σ).th i).wins = 0) ∧
+        (runSched Foot.generated cap c0 σ).g = ⟨.gone, c0.g.proc⟩) := by
   have sh := shape_of_raw (D := D) .ready .gone {} _ fini_shape_generated
-  exact cas_once Foot.generated cap (frm := .ready) (to := .gone) (by decide) N
-    (fun _ => Call.procFini) (fun _ => sh.choose)
-    (fun i t => sh.choose_spec.1) (fun _ => sh.choose_spec.2) c0 h0 σ
+  have h := cas_once Foot.generated cap (frm := .ready) (to := .gone) (by decide) N
+    (fun _ => Call.procFini) (fun _ => ((Foot.generated.events "ovni_proc_fini").map (toStep {})).tail)
+    (fun i t => sh.1) (fun _ => sh.2) c0 h0 σ
+  refine ⟨h.1, h.2.1, fun hN hd => ?_⟩
+  obtain ⟨w, h1, h2, h3, h4, h5⟩ := h.2.2 hN hd
+  exact ⟨w, h1, h2, h3, h4, by rw [h5]; rfl⟩
 
 /-! ### Isolation -/
 
@@ -253,5 +273,101 @@ theorem schedule_independent (cap : Nat) (tidOf : Nat → Nat) (hinj : ∀ a b, 
   rw [solo_is_sequential cap c0 σ₁ i] at a1
   rw [solo_is_sequential cap c0 σ₂ i, ← hc] at a2
   exact ⟨a1.1.trans a2.1.symm, fun k => (a1.2.1 k).trans (a2.2.1 k).symm⟩
+
+/-! ### Non-vacuity, and what happens without the hypotheses -/
+
+section Examples
+
+private def args (i : Nat) : Proc := { app := 1, pid := 10 + i, loom := 7 }
+private def initRace : Cfg (List Nat) := raceCfg 3 (fun i => .procInit (args i)) .uninit
+private def finiRace : Cfg (List Nat) := raceCfg 3 (fun _ => .procFini) .ready
+
+/-- The hypotheses of `init_once` hold for three racing threads … -/
+example : Race .uninit 3 (fun i => Call.procInit (args i)) initRace :=
+  ⟨rfl, fun i h => by simp [initRace, raceCfg, Fresh, h], fun i h => by
+    have : ¬ i < 3 := by omega
+    simp [initRace, raceCfg, Idle, this]⟩
+
+/-- … a round-robin schedule runs all three calls to completion: thread 0
+    wins, the process is READY with thread 0's arguments, threads 1 and 2 died. -/
+example :
+    let c := runSched Foot.generated 100 initRace (roundRobin 3 15)
+    (∀ i, i < 3 → (c.th i).dead = true ∨ ((c.th i).pend.isEmpty = true ∧ (c.th i).calls.isEmpty = true)) ∧
+    (c.th 0).dead = false ∧ (c.th 0).wins = 1 ∧ (c.th 1).dead = true ∧ (c.th 2).dead = true ∧
+    c.g = ⟨.ready, args 0⟩ := by decide
+
+/-- … and under another schedule thread 2 is the one. -/
+example :
+    let c := runSched Foot.generated 100 initRace ([2, 2, 1, 0, 1, 0] ++ List.replicate 14 2)
+    (c.th 2).dead = false ∧ (c.th 2).wins = 1 ∧ (c.th 0).dead = true ∧ (c.th 1).dead = true ∧
+    c.g = ⟨.ready, args 2⟩ := by decide
+
+example : Race .ready 3 (fun _ => (Call.procFini : Call (List Nat))) finiRace :=
+  ⟨rfl, fun i h => by simp [finiRace, raceCfg, Fresh, h], fun i h => by
+    have : ¬ i < 3 := by omega
+    simp [finiRace, raceCfg, Idle, this]⟩
+
+example :
+    let c := runSched Foot.generated 100 finiRace [1, 0, 2, 2, 1, 0]
+    (c.th 2).dead = false ∧ (c.th 2).wins = 1 ∧ (c.th 0).dead = true ∧ (c.th 1).dead = true ∧
+    c.g.st = .gone := by decide
+
+/-- The compare-exchange is needed: for the step list of a `ovni_proc_init`
+    that tests `st` with a load and then stores (the list `gen_footprint` would
+    produce for such a source) there is a schedule under which TWO threads
+    return from `ovni_proc_init`, the second overwriting the first one's pid. -/
+theorem cas_is_needed :
+    ∃ σ, Returned ((runSched loadStoreFoot 100 (raceCfg (D := List Nat) 2 (fun i => .procInit (args i)) .uninit) σ).th 0) ∧
+         Returned ((runSched loadStoreFoot 100 (raceCfg (D := List Nat) 2 (fun i => .procInit (args i)) .uninit) σ).th 1) ∧
+         (runSched loadStoreFoot 100 (raceCfg (D := List Nat) 2 (fun i => .procInit (args i)) .uninit) σ).g.proc.pid = 11 :=
+  ⟨[0, 1, 0, 1, 0, 1, 0, 1, 0, 1], by
+    refine ⟨⟨by decide, ?_, ?_⟩, ⟨by decide, ?_, ?_⟩, by decide⟩ <;>
+      exact List.isEmpty_iff.mp (by decide)⟩
+
+/-- and that generated list indeed fails the shape test `init_once` rests on. -/
+example : raceShapeRaw .uninit .init (loadStoreFoot.events "ovni_proc_init") = false := by decide
+
+private def ev (v : Nat) : Op (List Nat) := .emitNow { m := 79, c := 72, v := v, clock := 0 } []
+private def prog (i : Nat) : List (Call (List Nat)) :=
+  if i = 0 then [.threadInit 100, .stream (ev 1), .addCpu 0 0, .stream (ev 2), .stream .flush, .threadFree]
+  else if i = 1 then [.threadInit 101, .stream (ev 3), .attrSet "k" "1", .stream .flush, .stream (ev 4), .threadFree]
+  else []
+private def twoThreads : Cfg (List Nat) := threadsCfg { app := 1, pid := 1, loom := 0 } (fun i => 100 + i) prog
+
+/-- The hypothesis of `thread_isolation` holds for two threads that trace
+    concurrently (init, emit, add_cpu / attr, flush, emit, free) … -/
+example : SafeCfg (fun i => 100 + i) twoThreads :=
+  threadsCfg_safe _ _ _ (by
+    intro i k hk
+    unfold prog at hk
+    split at hk
+    · next h => subst h; simp at hk; rcases hk with rfl | rfl | rfl | rfl | rfl | rfl <;> simp [CallSafe]
+    · split at hk
+      · next h => subst h; simp at hk; rcases hk with rfl | rfl | rfl | rfl | rfl | rfl <;> simp [CallSafe]
+      · simp at hk)
+
+/-- … and after a round-robin schedule both have finished, with the header and
+    the user events emitted before their flush in their own file (two for
+    thread 0; one for thread 1, whose last event stayed in the buffer: the
+    library does not flush in `ovni_thread_free`) and their metadata written. -/
+example :
+    let c := runSched Foot.generated 100 twoThreads (roundRobin 2 26)
+    (c.th 0).dead = false ∧ (c.th 1).dead = false ∧ (c.th 0).t.s.finished = true ∧ (c.th 1).t.s.finished = true ∧
+    File.size (c.fs 100 .obs) = 2 ∧ File.size (c.fs 101 .obs) = 1 ∧
+    File.size (c.fs 100 .json) = 11 ∧ File.size (c.fs 101 .json) = 11 := by
+  set_option maxRecDepth 8000 in decide
+
+/-- Distinct tids are needed: two threads that both call
+    `ovni_thread_init(100)` clobber each other's `thread.100/stream.obs` — the
+    file does not hold what thread 0 alone would have written. -/
+example :
+    let c0 : Cfg (List Nat) := threadsCfg {} (fun _ => 100)
+      (fun i => if i = 0 then [.threadInit 100, .stream (ev 1), .stream .flush] else
+                if i = 1 then [.threadInit 100] else [])
+    let σ := List.replicate 15 0 ++ List.replicate 8 1
+    File.size ((runSched Foot.generated 100 c0 σ).fs 100 .obs) = 0 ∧
+    File.size ((runSched Foot.generated 100 (solo c0 0) σ).fs 100 .obs) = 1 := by decide
+
+end Examples
 
 end Ovni.Props.C11
